@@ -14,11 +14,16 @@ def canon_type(qt):
     return qt
 
 
+def unit_ctype_ok(el, abstract):
+    return el in ('int', 'unsigned int', 'long', 'size_t') and el in abstract
+
+
 class StdVector(Plugin):
     """std::vector<T> for scalar / pointer T: struct v_vec_<T> (models/vec_model.h)"""
-    def __init__(self, fixed=None, abstract=None):
+    def __init__(self, fixed=None, abstract=None, sets=False):
         self.decls = {}   # C struct name -> element C type
         self.abstract = abstract or {}   # element C type -> C predicate over `x` every stored element satisfies (size-only model)
+        self.sets = sets                 # also model std::set<int-like> (size-only; requires the element type in `abstract`)
         self.fixed = fixed or {}   # element C type -> constant capacity (bounded model B(cap), DESIGN C08)
 
     def elem_of(self, name):
@@ -27,7 +32,11 @@ class StdVector(Plugin):
         m = re.match(r'^std::(?:vector|deque)<(.*)>$', name)
         if m: return m.group(1).strip()
         m = re.match(r'^std::queue<(.*?)(?:,\s*std::deque<.*>\s*)?>$', name)        # std::queue over std::deque: push = push_back, pop = pop_front
-        return m.group(1).strip() if m else None
+        if m: return m.group(1).strip()
+        if self.sets:
+            m = re.match(r'^std::set<(.*?)(?:,\s*std::less<.*>\s*)?>$', name)        # std::set, only as a size-only model (iteration yields its elements in some order)
+            if m and unit_ctype_ok(m.group(1).strip(), self.abstract): return m.group(1).strip()
+        return None
 
     def type_for(self, name, unit):
         if name.endswith('::value_type') or name.endswith('::reference') or name.endswith('::const_reference'):
@@ -878,3 +887,16 @@ class Sync(Plugin):
             unit.used_keys.add(('loop', h, 1))
             return ''.join('  ' + l + '\n' for l in c.strip('\n').split('\n'))
         return ''
+
+
+class ScopeExit(Plugin):
+    """tbox::ScopeExitActionGuard (SetScopeExitAction(lambda)): the lambda is lifted and called where the guard object leaves its scope
+    (every exit path: the printer's scope-exit mechanism), which is what the guard's destructor does."""
+    def type_for(self, name, unit):
+        return 'struct v_scope_guard' if re.match(r'^(tbox::)?ScopeExitActionGuard$', canon_type(name)) else None
+    def is_model_type(self, ct): return ct.replace('const ', '').strip() == 'struct v_scope_guard'
+    def local_object(self, unit, v, ct, name, ks, p):
+        ce = unit.strip_tmp(ks[0]) if ks else None
+        if ce is None or ce['kind'] != 'CXXConstructExpr' or len(unit.kids(ce)) != 1: raise Unsupported('ScopeExitActionGuard without a single callable argument (in %s)' % unit.cur)
+        lam, largs, rt = unit.lift_lambda(unit.kids(ce)[0])
+        unit.scopes[-1]['vars'].append('%s(%s);' % (lam, ', '.join(largs)))
